@@ -53,6 +53,7 @@ package listener
 // client's shutdown): the token is not held here, and Upstreams.Shutdown requires it
 //@   property C02
 //@   requires !upstream.G_client_stopping()                                                                     :an_ordinary_connection_not_the_shutdown
+//@   nocall Upstreams).Shutdown                                                                                 :one_logical_connection_never_ends_the_shared_session
 //@   property C16
 //@   callsite ConnectDirectly#1 (ok bool) assume G_snap_direct() == ok "ghost snapshot: the direct attempt handled the connection"
 //@   callsite Connect#1 () require !G_snap_direct()                                                             :upstreams_only_after_the_direct_attempt_failed
